@@ -239,17 +239,36 @@ func ruleC20Helper(e *Env, h helperSpec) {
 	{
 		okIface := false
 		why := "no assert.FailNow(f) on the helper's t followed by return for a value lacking the interface"
+		// failNowT: the TestingT a call fails now on — assert.FailNow(f) directly, or a function of the package whose whole
+		// body is such a call on the TestingT it is given
+		failNowT := func(call *ssa.Call) ssa.Value {
+			if strings.HasPrefix(calleeName(&call.Call), "github.com/stretchr/testify/assert.FailNow") {
+				return call.Call.Args[0]
+			}
+			if g := e.C.StaticCallee(&call.Call); g != nil && flow.InRepo(g) && len(g.Blocks) == 1 {
+				for _, gin := range g.Blocks[0].Instrs {
+					if gc, ok := gin.(*ssa.Call); ok && strings.HasPrefix(calleeName(&gc.Call), "github.com/stretchr/testify/assert.FailNow") {
+						for pi, gp := range g.Params {
+							if derivesFrom(gc.Call.Args[0], gp) && pi < len(call.Call.Args) {
+								return call.Call.Args[pi]
+							}
+						}
+					}
+				}
+			}
+			return nil
+		}
 		for _, b := range fn.Blocks {
 			for _, in := range b.Instrs {
 				call, ok := in.(*ssa.Call)
-				if !ok || !strings.HasPrefix(calleeName(&call.Call), "github.com/stretchr/testify/assert.FailNow") {
+				if !ok || failNowT(call) == nil {
 					continue
 				}
 				if _, isRet := b.Instrs[len(b.Instrs)-1].(*ssa.Return); !isRet {
 					why = "after reporting the missing interface the helper does not return"
 					continue
 				}
-				if !isT(call.Call.Args[0]) {
+				if !isT(failNowT(call)) {
 					why = "the missing-interface failure is not reported on the helper's t"
 					continue
 				}
@@ -288,7 +307,7 @@ func ruleC20Helper(e *Env, h helperSpec) {
 						for _, b := range fn.Blocks {
 							for _, in := range b.Instrs {
 								c2, ok := in.(*ssa.Call)
-								if ok && strings.HasPrefix(calleeName(&c2.Call), "github.com/stretchr/testify/assert.FailNow") && (pass == b || pass.Dominates(b)) {
+								if ok && failNowT(c2) != nil && (pass == b || pass.Dominates(b)) {
 									behind = true
 								}
 							}
@@ -382,23 +401,157 @@ func ruleC20Helper(e *Env, h helperSpec) {
 		}
 	}
 	// ---- C20.verdict
-	{
-		var predCall *ssa.Call
-		for _, b := range fn.Blocks {
-			for _, in := range b.Instrs {
-				if call, ok := in.(*ssa.Call); ok && !call.Call.IsInvoke() && call.Call.StaticCallee() == nil {
-					if _, isBuiltin := call.Call.Value.(*ssa.Builtin); !isBuiltin && fieldLoad(call.Call.Value, "Error") {
-						predCall = call
-					}
+	expectField := map[bool]string{true: "Data", false: "Value"}[h.marshal]
+	roles := verdictRoles{
+		isT:      isT,
+		isErr:    func(v ssa.Value) bool { return v == errV },
+		isData:   isData,
+		isExpect: func(v ssa.Value) bool { return fieldLoad(v, expectField) },
+		isPred:   func(v ssa.Value) bool { return fieldLoad(v, "Error") },
+	}
+	vf, vroles := fn, roles
+	if !hasVerdict(fn, roles) {
+		// the verdict may live in a shared function of the package that receives t, the predicate, the obtained error,
+		// the expectation and the produced result: follow the one call that takes the obtained error
+		for _, call := range e.C.Calls(fn, flow.InRepo) {
+			g := flow.Origin(e.C.StaticCallee(&call.Call))
+			if !anyArg(call, roles.isErr) || len(g.Params) != len(call.Call.Args) {
+				continue
+			}
+			cr := calleeRoles(g, call, roles, dataV, expectField)
+			if hasVerdict(g, cr) {
+				vf, vroles = g, cr
+			}
+		}
+	}
+	verdictIn(e, site, pos, h, vf, vroles, expectField)
+}
+
+// verdictRoles tell the verdict rule which values of a function play which part.
+type verdictRoles struct {
+	isT, isErr, isData, isExpect, isPred func(ssa.Value) bool
+}
+
+// calleeRoles maps the roles of the caller's arguments onto the parameters of g: a parameter plays the role of the
+// argument it receives; a parameter receiving the address of the produced value / of the case's expectation plays
+// that role through its loads.
+func calleeRoles(g *ssa.Function, call *ssa.Call, r verdictRoles, dataV ssa.Value, expectField string) verdictRoles {
+	type role int
+	const (
+		none role = iota
+		rT
+		rErr
+		rData
+		rDataPtr
+		rExpect
+		rExpectPtr
+		rPred
+	)
+	pr := map[*ssa.Parameter]role{}
+	for i, a := range call.Call.Args {
+		p := g.Params[i]
+		switch {
+		case r.isT(a):
+			pr[p] = rT
+		case r.isErr(a):
+			pr[p] = rErr
+		case r.isPred(a):
+			pr[p] = rPred
+		case r.isData(a):
+			pr[p] = rData
+		case a == dataV:
+			pr[p] = rDataPtr
+		case r.isExpect(a):
+			pr[p] = rExpect
+		default:
+			if fa, ok := a.(*ssa.FieldAddr); ok {
+				if st := structOf(fa.X.Type()); st != nil && st.Field(fa.Field).Name() == expectField {
+					pr[p] = rExpectPtr
 				}
 			}
 		}
+	}
+	via := func(v ssa.Value, direct, ptr role) bool {
+		v = flow.Strip(v)
+		for k := 0; k < 6; k++ {
+			if p, ok := v.(*ssa.Parameter); ok {
+				return pr[p] == direct
+			}
+			if u, ok := v.(*ssa.UnOp); ok && u.Op == token.MUL {
+				if p, ok := u.X.(*ssa.Parameter); ok {
+					return pr[p] == ptr
+				}
+				return false
+			}
+			switch y := v.(type) {
+			case *ssa.MakeInterface:
+				v = y.X
+			case *ssa.ChangeInterface:
+				v = y.X
+			case *ssa.ChangeType:
+				v = y.X
+			case *ssa.Convert:
+				v = y.X
+			case *ssa.MultiConvert:
+				v = y.X
+			default:
+				return false
+			}
+		}
+		return false
+	}
+	return verdictRoles{
+		isT:      func(v ssa.Value) bool { return via(v, rT, none) },
+		isErr:    func(v ssa.Value) bool { p, ok := v.(*ssa.Parameter); return ok && pr[p] == rErr },
+		isData:   func(v ssa.Value) bool { return via(v, rData, rDataPtr) },
+		isExpect: func(v ssa.Value) bool { return via(v, rExpect, rExpectPtr) },
+		isPred:   func(v ssa.Value) bool { p, ok := flow.Strip(v).(*ssa.Parameter); return ok && pr[p] == rPred },
+	}
+}
+
+func findPredCall(fn *ssa.Function, r verdictRoles) *ssa.Call {
+	for _, b := range fn.Blocks {
+		for _, in := range b.Instrs {
+			if call, ok := in.(*ssa.Call); ok && !call.Call.IsInvoke() && call.Call.StaticCallee() == nil {
+				if _, isBuiltin := call.Call.Value.(*ssa.Builtin); !isBuiltin && r.isPred(call.Call.Value) {
+					return call
+				}
+			}
+		}
+	}
+	return nil
+}
+
+func findNoError(fn *ssa.Function, r verdictRoles) *ssa.Call {
+	var noErr *ssa.Call
+	for _, b := range fn.Blocks {
+		for _, in := range b.Instrs {
+			if c, ok := in.(*ssa.Call); ok && calleeName(&c.Call) == "github.com/stretchr/testify/assert.NoError" && len(c.Call.Args) >= 2 && r.isErr(c.Call.Args[1]) {
+				noErr = c
+			}
+		}
+	}
+	return noErr
+}
+
+func hasVerdict(fn *ssa.Function, r verdictRoles) bool {
+	return findPredCall(fn, r) != nil || findNoError(fn, r) != nil
+}
+
+// verdictIn: the predicate / plain verdict branches inside vf (the helper itself or the shared function it calls).
+func verdictIn(e *Env, site, pos string, h helperSpec, fn *ssa.Function, r verdictRoles, expectField string) {
+	where := ""
+	if flow.FnName(fn) != site {
+		where = " (in " + flow.FnName(fn) + ")"
+	}
+	{
+		predCall := findPredCall(fn, r)
 		emptyNames := map[string]bool{"github.com/stretchr/testify/assert.Nil": true, "github.com/stretchr/testify/assert.Empty": true, "go.lstv.dev/util/test.helperAssertEmpty": true}
 		equalNames := map[string]bool{"github.com/stretchr/testify/assert.Equal": true, "go.lstv.dev/util/test.helperAssertEqual": true, "github.com/stretchr/testify/assert.EqualValues": true}
 		findAfterTrue := func(cond *ssa.Call, names map[string]bool) *ssa.Call {
 			var tb *ssa.BasicBlock
-			for _, r := range *cond.Referrers() {
-				if iff, ok := r.(*ssa.If); ok {
+			for _, rr := range *cond.Referrers() {
+				if iff, ok := rr.(*ssa.If); ok {
 					tb = iff.Block().Succs[0]
 				}
 			}
@@ -417,70 +570,60 @@ func ruleC20Helper(e *Env, h helperSpec) {
 			}
 			return nil
 		}
-		argsWithT := func(c *ssa.Call) bool {
-			for _, a := range c.Call.Args {
-				if isT(a) {
-					return true
-				}
-			}
-			return false
-		}
+		argsWithT := func(c *ssa.Call) bool { return anyArg(c, r.isT) }
 		// predicate branch
 		switch {
 		case predCall == nil:
 			e.S.Bad("C20.verdict", site, "predicate branch", "the case's error predicate is never invoked: an unmet predicate is not reported", pos, "")
-		case len(predCall.Call.Args) != 3 || !isT(predCall.Call.Args[0]) || predCall.Call.Args[1] != errV:
-			e.S.Bad("C20.verdict", site, "predicate branch", "the error predicate is not invoked with (t, the error obtained from "+h.name+", info)", e.posOf(predCall), "")
+		case len(predCall.Call.Args) != 3 || !r.isT(predCall.Call.Args[0]) || !r.isErr(predCall.Call.Args[1]):
+			e.S.Bad("C20.verdict", site, "predicate branch", "the error predicate is not invoked with (t, the error obtained from "+h.name+", info)"+where, e.posOf(predCall), "")
 		default:
 			emp := findAfterTrue(predCall, emptyNames)
 			switch {
 			case emp == nil:
-				e.S.Bad("C20.verdict", site, "predicate branch", "when the predicate is satisfied the produced data/value is not asserted empty: a result alongside an expected error goes unreported", e.posOf(predCall), "")
-			case !argsWithT(emp) || !anyArg(emp, isData):
-				e.S.Bad("C20.verdict", site, "predicate branch", "the emptiness assertion is not applied to the produced data/value with the helper's t", e.posOf(emp), "")
+				e.S.Bad("C20.verdict", site, "predicate branch", "when the predicate is satisfied the produced data/value is not asserted empty: a result alongside an expected error goes unreported"+where, e.posOf(predCall), "")
+			case !argsWithT(emp) || !anyArg(emp, r.isData):
+				e.S.Bad("C20.verdict", site, "predicate branch", "the emptiness assertion is not applied to the produced data/value with the helper's t"+where, e.posOf(emp), "")
 			default:
-				e.S.Ok("C20.verdict", site, "predicate branch", "predicate(t, err, info) and, on true, emptiness assertion on the produced data/value", e.posOf(predCall))
+				e.S.Ok("C20.verdict", site, "predicate branch", "predicate(t, err, info) and, on true, emptiness assertion on the produced data/value"+where, e.posOf(predCall))
 			}
 		}
 		// no-predicate branch
-		var noErr *ssa.Call
-		for _, b := range fn.Blocks {
-			for _, in := range b.Instrs {
-				if c, ok := in.(*ssa.Call); ok && calleeName(&c.Call) == "github.com/stretchr/testify/assert.NoError" && len(c.Call.Args) >= 2 && c.Call.Args[1] == errV {
-					noErr = c
-				}
-			}
-		}
+		noErr := findNoError(fn, r)
 		switch {
-		case noErr == nil || !isT(noErr.Call.Args[0]):
+		case noErr == nil || !r.isT(noErr.Call.Args[0]):
 			e.S.Bad("C20.verdict", site, "plain branch", "without a predicate the obtained error is not asserted with NoError on t: an unexpected error is not reported", pos, "")
 		default:
 			eq := findAfterTrue(noErr, equalNames)
-			expectField := map[bool]string{true: "Data", false: "Value"}[h.marshal]
 			switch {
 			case eq == nil:
-				e.S.Bad("C20.verdict", site, "plain branch", "after NoError there is no equality assertion between the case's "+expectField+" and the produced "+map[bool]string{true: "data", false: "value"}[h.marshal]+": differing results pass silently", e.posOf(noErr), "")
-			case !argsWithT(eq) || !anyArg(eq, isData) || !anyArg(eq, func(v ssa.Value) bool { return fieldLoad(v, expectField) }):
-				e.S.Bad("C20.verdict", site, "plain branch", "the equality assertion does not compare the case's "+expectField+" with the produced result on the helper's t", e.posOf(eq), "")
+				e.S.Bad("C20.verdict", site, "plain branch", "after NoError there is no equality assertion between the case's "+expectField+" and the produced "+map[bool]string{true: "data", false: "value"}[h.marshal]+": differing results pass silently"+where, e.posOf(noErr), "")
+			case !argsWithT(eq) || !anyArg(eq, r.isData) || !anyArg(eq, r.isExpect):
+				e.S.Bad("C20.verdict", site, "plain branch", "the equality assertion does not compare the case's "+expectField+" with the produced result on the helper's t"+where, e.posOf(eq), "")
 			default:
-				e.S.Ok("C20.verdict", site, "plain branch", "NoError(t, err) and, on true, equality of c."+expectField+" and the produced result", e.posOf(noErr))
+				e.S.Ok("C20.verdict", site, "plain branch", "NoError(t, err) and, on true, equality of c."+expectField+" and the produced result"+where, e.posOf(noErr))
 			}
 		}
-		// selection between the branches
+		// selection between the branches: `pred != nil` (or `pred == nil` with the arms exchanged)
 		sel := false
 		for _, b := range fn.Blocks {
 			if iff, ok := b.Instrs[len(b.Instrs)-1].(*ssa.If); ok {
-				if cmp, ok := iff.Cond.(*ssa.BinOp); ok && cmp.Op == token.NEQ && flow.IsNilConst(cmp.Y) && fieldLoad(cmp.X, "Error") {
-					if predCall != nil && noErr != nil && (b.Succs[0] == predCall.Block() || b.Succs[0].Dominates(predCall.Block())) && (b.Succs[1] == noErr.Block() || b.Succs[1].Dominates(noErr.Block())) {
+				if cmp, ok := iff.Cond.(*ssa.BinOp); ok && (cmp.Op == token.NEQ || cmp.Op == token.EQL) && flow.IsNilConst(cmp.Y) && r.isPred(cmp.X) {
+					predEdge, plainEdge := b.Succs[0], b.Succs[1]
+					if cmp.Op == token.EQL {
+						predEdge, plainEdge = plainEdge, predEdge
+					}
+					if predCall != nil && noErr != nil && (predEdge == predCall.Block() || predEdge.Dominates(predCall.Block())) && (plainEdge == noErr.Block() || plainEdge.Dominates(noErr.Block())) &&
+						!(plainEdge == predCall.Block() || plainEdge.Dominates(predCall.Block())) && !(predEdge == noErr.Block() || predEdge.Dominates(noErr.Block())) {
 						sel = true
 					}
 				}
 			}
 		}
 		if sel {
-			e.S.Ok("C20.verdict", site, "branch selection", "c.Error != nil selects the predicate branch, otherwise the plain branch", pos)
+			e.S.Ok("C20.verdict", site, "branch selection", "a non-nil c.Error selects the predicate branch, nil the plain branch"+where, pos)
 		} else if predCall != nil && noErr != nil {
-			e.S.Bad("C20.verdict", site, "branch selection", "the two verdict branches are not selected by c.Error != nil", pos, "")
+			e.S.Bad("C20.verdict", site, "branch selection", "the two verdict branches are not selected by c.Error != nil"+where, pos, "")
 		}
 	}
 }
